@@ -65,7 +65,7 @@ def _cases(draw):
     case = {
         "start": iso(t0), "kind": kind, "host": host, "probe": probe, "dt": dt,
         "lat": draw(st.floats(-70, 70)), "lon": draw(st.floats(-180, 180)), "salt_r": draw(st.sampled_from([7000.0, 8000.0, 26000.0])),
-        "az_mask": [az0, (az0 + azw) % 360.0], "el_mask": [el0, el0 + elw], "fov": fov,
+        "az_mask": [az0, (az0 + azw) % 360.0], "el_mask": [el0, el0 + elw], "el_reversed": draw(st.booleans()), "fov": fov,
         "min_range": draw(st.sampled_from([None, 0.0, 500.0])), "max_range": draw(st.sampled_from([None, 3000.0, 40000.0])),
         "slew": draw(st.sampled_from([0.01, 0.3, 3.0, 30.0])), "bore_off": draw(st.sampled_from([0.05, 1.0, 5.0, 30.0, 150.0])), "bore_dir": draw(st.floats(0, 360)),
         "u": [draw(st.floats(0, 1)) for _ in range(4)], "edge_eps": draw(st.sampled_from([-1e-3, -1e-5, 1e-5, 1e-3, -0.05, 0.05])),
@@ -291,7 +291,8 @@ def collect(c, rec):
         if st_ is not None and Earth.radius + 120.0 < np.linalg.norm(st_[1][:3]) < 48000.0 and np.linalg.norm(st_[0][:3]) < 48000.0:
             bgs.append(st_)
     # ---- the real objects -------------------------------------------------------------------------
-    sensor_over = {"azimuth_range": c["az_mask"], "elevation_range": c["el_mask"], "field_of_view": c["fov"], "slew_rate": c["slew"],
+    # (elevation limits are documented as order independent: a drawn half of the cases configure them high-to-low)
+    sensor_over = {"azimuth_range": c["az_mask"], "elevation_range": c["el_mask"][::-1] if c.get("el_reversed") else c["el_mask"], "field_of_view": c["fov"], "slew_rate": c["slew"],
                    "background_observations": True, "maximum_range": c["max_range"] if c["max_range"] is not None else float("inf")}
     if c["min_range"] is not None:
         sensor_over["minimum_range"] = c["min_range"]
@@ -375,7 +376,9 @@ def collect(c, rec):
         if ob.sensor_id != SID or ob.target_id not in verdicts:
             raise Violation("observation_ids", f"observation of unknown pair ({ob.sensor_id}, {ob.target_id})")
         evb, bandb, measb = verdicts[ob.target_id]
-        bad = [k for k, v in evb.items() if v < -bandb[k] and (k != "slew" or ob.target_id == TID)]
+        # (slew reachability of the commanded pointing applies to serendipitous observations as well: a sensor that cannot get
+        # there has nothing in its field of view "about the commanded pointing")
+        bad = [k for k, v in evb.items() if v < -bandb[k]]
         if bad:
             raise Violation("observation_violates_constraint", f"observation of target {ob.target_id} reported although {bad} fail(s) by independent evaluation (margins { {k: evb[k] for k in bad} }; {c['kind']}/{c['host']}, probe {c['probe']})")
         rec.label("explanation:Visible")
